@@ -32,6 +32,7 @@ type RunOpts struct {
 	Verbose    bool
 	NoReplay   bool
 	MaxWitness int
+	UFGeneric  bool
 }
 
 type KnownFinding struct {
@@ -108,7 +109,7 @@ func runItems(eng *Engine, items []Item, opts RunOpts, known map[string]bool) []
 				}
 				sol.Reset()
 				sol.Stats = QueryStats{TimeBy: map[string]float64{}}
-				ex := &Exec{eng: eng, ctx: NewCtx(), sol: sol, cfg: ExecCfg{MaxPaths: opts.MaxPaths, MaxSteps: opts.MaxSteps, MaxVisits: opts.MaxVisits, MapDesc: it.MapDesc, Known: known, MaxConc: 1024}}
+				ex := &Exec{eng: eng, ctx: NewCtx(), sol: sol, cfg: ExecCfg{MaxPaths: opts.MaxPaths, MaxSteps: opts.MaxSteps, MaxVisits: opts.MaxVisits, MapDesc: it.MapDesc, Known: known, MaxConc: 1024, UFGeneric: opts.UFGeneric}}
 				h := eng.pkgs[it.PkgKey].Func(it.Func)
 				var r *ItemResult
 				if h == nil {
@@ -254,46 +255,97 @@ func RunCheck(spec *PropSpec, opts RunOpts) int {
 	exit := 0
 	var confirmed []Finding
 	var knownConfirmed []Finding
+	collisionOnly := 0
 	if !opts.NoReplay {
-		cases := append(append(append([]Finding(nil), viols...), knownPick...), witnesses...)
-		if len(cases) > 0 {
+		// replay returns the cases that did not reproduce
+		replay := func(cases []Finding, final bool) (mism []Finding) {
+			if len(cases) == 0 {
+				return nil
+			}
 			outs, err := nativeReplay(eng, cases)
 			if err != nil {
 				inconc = append(inconc, "native replay failed: "+err.Error())
-			} else {
-				for i, c := range cases {
-					o := outs[i]
-					switch c.Kind {
-					case "reach":
-						if o.Result == "ok" && contains(o.Reached, c.Label) {
-							validated++
-						} else {
-							inconc = append(inconc, fmt.Sprintf("ENGINE-MISMATCH: witness of %s%v reaches %q symbolically but natively: %s %s", c.Harness, c.Shape, c.Label, o.Result, o.Label))
-						}
-					case "known":
-						if o.Result == "fail" || o.Result == "panic" || contains(o.Known, c.KnownID) {
-							validated++
-							knownConfirmed = append(knownConfirmed, c)
-						} else {
-							inconc = append(inconc, fmt.Sprintf("ENGINE-MISMATCH: known finding %s model does not reproduce natively (%s %s)", c.KnownID, o.Result, o.Label))
-						}
-					default:
-						// monitor findings (lock discipline, package-level writes) are observations of the engine on a path;
-						// natively only the feasibility of that path can be confirmed: the harness must run through
-						if c.Kind == "monitor" && o.Result == "ok" {
-							validated++
-							confirmed = append(confirmed, c)
-							continue
-						}
-						if o.Result == "fail" || o.Result == "panic" || (c.KnownID != "" && contains(o.Known, c.KnownID)) {
-							validated++
-							confirmed = append(confirmed, c)
-						} else {
-							inconc = append(inconc, fmt.Sprintf("ENGINE-MISMATCH: violation %q of %s%v does not reproduce natively (%s %s)", c.Label, c.Harness, c.Shape, o.Result, o.Label))
-						}
+				return nil
+			}
+			for i, c := range cases {
+				o := outs[i]
+				switch c.Kind {
+				case "reach":
+					if o.Result == "ok" && contains(o.Reached, c.Label) {
+						validated++
+					} else {
+						inconc = append(inconc, fmt.Sprintf("ENGINE-MISMATCH: witness of %s%v reaches %q symbolically but natively: %s %s", c.Harness, c.Shape, c.Label, o.Result, o.Label))
+					}
+				case "known":
+					if o.Result == "fail" || o.Result == "panic" || contains(o.Known, c.KnownID) {
+						validated++
+						knownConfirmed = append(knownConfirmed, c)
+					} else if !final {
+						mism = append(mism, c)
+					} else {
+						inconc = append(inconc, fmt.Sprintf("ENGINE-MISMATCH: known finding %s model does not reproduce natively (%s %s)", c.KnownID, o.Result, o.Label))
+					}
+				default:
+					// monitor findings (lock discipline, package-level writes) are observations of the engine on a path;
+					// natively only the feasibility of that path can be confirmed: the harness must run through
+					if c.Kind == "monitor" && o.Result == "ok" {
+						validated++
+						confirmed = append(confirmed, c)
+						continue
+					}
+					if o.Result == "fail" || o.Result == "panic" || (c.KnownID != "" && contains(o.Known, c.KnownID)) {
+						validated++
+						confirmed = append(confirmed, c)
+					} else if !final {
+						mism = append(mism, c)
+					} else {
+						inconc = append(inconc, fmt.Sprintf("ENGINE-MISMATCH: violation %q of %s%v does not reproduce natively (%s %s)", c.Label, c.Harness, c.Shape, o.Result, o.Label))
 					}
 				}
 			}
+			return mism
+		}
+		mism := replay(append(append(append([]Finding(nil), viols...), knownPick...), witnesses...), false)
+		if len(mism) > 0 {
+			// A counterexample that does not reproduce may rest on a collision of the uninterpreted CMAC / AES functions.
+			// The items concerned are run again asking for collision-free models (exec.go: ufGeneric): what is still
+			// violated then is replayed again (and must reproduce); what is not was satisfiable through collisions only.
+			type key struct{ f, s string }
+			want := map[key]bool{}
+			for _, c := range mism {
+				want[key{c.Harness, fmt.Sprint(c.Shape)}] = true
+			}
+			var sub []Item
+			for _, it := range items {
+				if want[key{it.Func, fmt.Sprint(it.Shape)}] {
+					sub = append(sub, it)
+				}
+			}
+			o2 := opts
+			o2.UFGeneric = true
+			o2.Verbose = false
+			res2 := runItems(eng, sub, o2, known)
+			var again []Finding
+			for i, r := range res2 {
+				if r.Err != "" {
+					inconc = append(inconc, fmt.Sprintf("%s%v: engine error (collision-free re-run): %s", sub[i].Func, sub[i].Shape, r.Err))
+				}
+				for _, s := range r.Inconclusive {
+					inconc = append(inconc, fmt.Sprintf("%s%v (collision-free re-run): %s", sub[i].Func, sub[i].Shape, s))
+				}
+				collisionOnly += r.CollisionOnly
+				seen := map[string]bool{}
+				for _, v := range append(append([]Finding(nil), r.Violations...), r.KnownHits...) {
+					if !seen[v.Kind+v.Label+v.KnownID] {
+						seen[v.Kind+v.Label+v.KnownID] = true
+						again = append(again, v)
+					}
+				}
+			}
+			if len(again) > 24 {
+				again = again[:24]
+			}
+			replay(again, true)
 		}
 	} else {
 		confirmed = viols
@@ -331,6 +383,9 @@ func RunCheck(spec *PropSpec, opts RunOpts) int {
 			}
 			fmt.Printf("INCONCLUSIVE property=%s %s\n", spec.ID, s)
 		}
+	}
+	if collisionOnly > 0 && len(results) > 0 {
+		results[0].CollisionOnly += collisionOnly
 	}
 	writeEvidence(spec, opts, items, results, knownConfirmed, inconc, validated, time.Since(t0).Seconds(), len(confirmed))
 	if exit == 0 {
